@@ -1110,7 +1110,15 @@ def _unroll_literal_loops(mods: dict[str, Module], log: list[str]) -> None:
                     i = 0
                     while i < len(b):
                         st = b[i]
-                        if isinstance(st, ast.For) and isinstance(st.iter, (ast.Tuple, ast.List)) and 1 <= len(st.iter.elts) <= 8 and not st.orelse \
+                        # `zip(<display>, <display>)` / `enumerate(<display>)` of literal displays of equal length are the display of their item tuples
+                        if isinstance(st, ast.For) and isinstance(st.iter, ast.Call) and isinstance(st.iter.func, ast.Name) and not st.iter.keywords:
+                            fnm, za = st.iter.func.id, st.iter.args
+                            if fnm == "zip" and len(za) >= 2 and all(isinstance(a, (ast.Tuple, ast.List)) and not any(isinstance(x, ast.Starred) for x in a.elts) for a in za) \
+                                    and len({len(a.elts) for a in za}) == 1 and 1 <= len(za[0].elts) <= 24:
+                                st.iter = ast.copy_location(ast.Tuple(elts=[ast.Tuple(elts=[a.elts[k] for a in za], ctx=ast.Load()) for k in range(len(za[0].elts))], ctx=ast.Load()), st.iter)
+                            elif fnm == "enumerate" and len(za) == 1 and isinstance(za[0], (ast.Tuple, ast.List)) and 1 <= len(za[0].elts) <= 24 and not any(isinstance(x, ast.Starred) for x in za[0].elts):
+                                st.iter = ast.copy_location(ast.Tuple(elts=[ast.Tuple(elts=[ast.Constant(value=k), x], ctx=ast.Load()) for k, x in enumerate(za[0].elts)], ctx=ast.Load()), st.iter)
+                        if isinstance(st, ast.For) and isinstance(st.iter, (ast.Tuple, ast.List)) and 1 <= len(st.iter.elts) <= 24 and not st.orelse \
                                 and not any(isinstance(n, (ast.Break, ast.Continue)) for n in ast.walk(st)):
                             tg = st.target
                             names = [tg] if isinstance(tg, ast.Name) else list(tg.elts) if isinstance(tg, (ast.Tuple, ast.List)) and all(isinstance(x, ast.Name) for x in tg.elts) else None
@@ -1408,6 +1416,37 @@ def _inline_new_properties(mods: dict[str, Module], inv: dict, log: list[str]) -
                         cls.body.remove(node)
                 log.append(f"{mod.relpath} {cls.name}: new derived propert{'ies' if len(props) > 1 else 'y'} {sorted(props)} read as their expressions ({n_sub} read(s))")
         ast.fix_missing_locations(mod.tree)
+
+
+def _static_attr_access(mods: dict[str, Module], log: list[str]) -> None:
+    """`setattr(obj, "name", v)` / `getattr(obj, "name")` with a literal identifier are the attribute store / load they spell."""
+    n = 0
+
+    class T(ast.NodeTransformer):
+        def visit_Expr(self, node: ast.Expr):  # noqa: N802
+            nonlocal n
+            self.generic_visit(node)
+            c = node.value
+            if isinstance(c, ast.Call) and isinstance(c.func, ast.Name) and c.func.id == "setattr" and len(c.args) == 3 and not c.keywords \
+                    and isinstance(c.args[1], ast.Constant) and isinstance(c.args[1].value, str) and c.args[1].value.isidentifier():
+                n += 1
+                return ast.copy_location(ast.Assign(targets=[ast.Attribute(value=c.args[0], attr=c.args[1].value, ctx=ast.Store())], value=c.args[2], type_comment=None), node)
+            return node
+
+        def visit_Call(self, node: ast.Call):  # noqa: N802
+            nonlocal n
+            self.generic_visit(node)
+            if isinstance(node.func, ast.Name) and node.func.id == "getattr" and len(node.args) == 2 and not node.keywords \
+                    and isinstance(node.args[1], ast.Constant) and isinstance(node.args[1].value, str) and node.args[1].value.isidentifier():
+                n += 1
+                return ast.copy_location(ast.Attribute(value=node.args[0], attr=node.args[1].value, ctx=ast.Load()), node)
+            return node
+
+    for mod in mods.values():
+        mod.tree = T().visit(mod.tree)
+        ast.fix_missing_locations(mod.tree)
+    if n:
+        log.append(f"{n} setattr/getattr call(s) with a literal name read as attribute accesses")
 
 
 def _split_conditional_with(mods: dict[str, Module], log: list[str]) -> None:
@@ -1973,8 +2012,13 @@ def canonicalise(mods: dict[str, Module]) -> dict:
         _scalarise_records(mods, inv, fwd_log)
     _unroll_literal_loops(mods, fwd_log)
     _unroll_literal_comprehensions(mods, fwd_log)
+    _static_attr_access(mods, fwd_log)
     _split_parallel_assign(mods, fwd_log)
     _Forward(mods, inv, fwd_log).run()
+    # displays that only became literal once new locals / constants were substituted
+    _unroll_literal_loops(mods, fwd_log)
+    _unroll_literal_comprehensions(mods, fwd_log)
+    _static_attr_access(mods, fwd_log)
     _split_conditional_with(mods, fwd_log)
     _strip_bool_in_tests(mods, fwd_log)
     fwd_log.extend(cm_log)
